@@ -96,11 +96,12 @@ class SymList:
 
 class DictVal:
     """Mutable dict with concrete (hashable) keys; insertion ordered."""
-    __slots__ = ("items", "keyvals")
+    __slots__ = ("items", "keyvals", "sym")
 
     def __init__(self):
         self.items = {}     # hkey -> value
         self.keyvals = {}   # hkey -> original key value
+        self.sym = []       # [[key value, value]] entries whose key is symbolic (looked up by equality formulas)
 
     def __repr__(self):
         return f"DictVal({list(self.keyvals.values())!r})"
@@ -108,11 +109,12 @@ class DictVal:
 
 class MapVal:
     """Mutable dict with symbolic keys in closure form: lookup(key value) -> (present: z3 Bool, value)."""
-    __slots__ = ("lookup", "tag")
+    __slots__ = ("lookup", "tag", "pairs")
 
-    def __init__(self, lookup, tag=""):
+    def __init__(self, lookup, tag="", pairs=None):
         self.lookup = lookup
         self.tag = tag
+        self.pairs = pairs      # optional explicit [(key value, value)] list (finitely many symbolic keys): keys()/items() work
 
     def __repr__(self):
         return f"MapVal<{self.tag}>"
